@@ -13,6 +13,14 @@
     later lines that come back and edit, then u / redo walks in every buffer; oracle = one undo stack per buffer, one step
     per command line per buffer; correspondence with the extracted table model (coq/UndoBufsDefs.v: BufsDefs with the edit
     log of UndoDefs in every slot) on the same histories.
+(4) LARGE histories: at the line-buffer interface operation lists that log 100..5000 entries (thorough: 12000; probe-only lists
+    to 9000 / 40000), steps of 1..1500 entries between two command boundaries, totals aimed at the growth points of hist[]
+    (HIST_INIT * 2^k, +-1) and at typical cap values, followed by COMPLETE undo and redo walks (with and without the bump the
+    editor makes after every u / redo), probe vs. extracted model vs. stack oracle after every operation; end to end `:%s`, `:g`,
+    `:v`, range `s`, counted `>>` / `<<` / `.` over files of 129 .. 2600 lines (every line carries its identity), two to four such
+    commands, u down to the loaded file (and once more), redo back up (and once more), the text read back after every step;
+    a blind variant with nothing between the command lines.  A history that silently forgets, merges or splits old entries
+    cannot pass these (theorems C04_undo_walk_complete / C04_history_never_truncated say the model never does).
 Oracle (the property itself, evaluated on the implementation's texts, independent of the model):
 a stack of earlier texts keyed by command number.
 """
@@ -1250,7 +1258,9 @@ def run(ctx):
                 'ex = vi -s -e script of compound commands with u/redo, %%p after every command; vi = vi -v key stream with counted commands, u, ^R, '
                 'side file written after every command; exbufs = 3-5 files, command lines `p1|p2|...` that edit the current buffer and switch (e! e # b N b + - # ^ next prev q) '
                 'in one line, then undo/redo walks in every buffer, oracle = per-buffer undo stacks (one step per command line per buffer) from an observed run, '
-                'the walk taken from a run with nothing between the lines; the same histories through the extracted table model with the edit log in every slot.  non-trivial = the list contains both an undo and a redo; distinct = distinct list/script') % (L, len(ALPHA))
+                'the walk taken from a run with nothing between the lines; the same histories through the extracted table model with the edit log in every slot; '
+                'large histories = lbuf lists logging 100..5000 entries (steps of 1..1500 entries, totals at the growth points of hist[] +-1 and at 1000/2000/3000/5000) with complete undo and redo walks '
+                'through probe, model and oracle (more and longer ones through probe and oracle only), and :%%s / :g / :v / counted >> << . over files of 129..2600 identity-carrying lines with complete u / redo walks, text read back after every step.  non-trivial = the list contains both an undo and a redo; distinct = distinct list/script') % (L, len(ALPHA))
 
     # ---- replay / corpus
     def one_lbuf(init, ops, where):
